@@ -89,8 +89,13 @@ func verifC10Run(rt *rapid.T, c *kit.Case, snapshotDir func() string) {
 		cfg.CheckpointMaxSize = uint64(rapid.IntRange(300, 6000).Draw(rt, "checkpointHolderBytes"))
 		c.Class("small-checkpoint-holder")
 	}
-	if snapshotDir != nil && rapid.IntRange(0, 9).Draw(rt, "levelDBSnapshots") == 0 {
+	if snapshotDir != nil && rapid.IntRange(0, 29).Draw(rt, "levelDBSnapshots") == 0 {
+		// BatchDelaySeconds must not be 0 for LevelDB: storage/leveldb.DB.Put adds to the batch outside the
+		// lock under which batchTimeoutHandle writes the batch and resets it, so a Put that lands between the
+		// write and the reset is lost; with a delay of 0 the handler spins and this happens all the time
+		// (side observation in the C10 report). 1 s also delays increaseNumCheckpoints by 1 s per request.
 		cfg.SnapshotDBType = "LvlDB"
+		cfg.SnapshotBatchSecs = 1
 		cfg.SnapshotPath = snapshotDir()
 		c.Class("leveldb-snapshots")
 	}
